@@ -278,7 +278,8 @@ impl M128 {
             if rem == 0 {
                 break;
             }
-            x += 1 << rem.trailing_zeros();
+            // The 64-bit starting point is -1/n, not 1/n: carries may ripple up to bit 127.
+            x = x.wrapping_add(1 << rem.trailing_zeros());
         }
         assert!(n.wrapping_mul(x) == 1);
         1 + !x
